@@ -6,6 +6,8 @@
   source size and coder schedule (`c : Cfg α` is universally quantified).
 -/
 import XzVerif.Lemmas.XzIoStep
+import XzVerif.Lemmas.XzIoQ4
+import XzVerif.Lemmas.XzIoQ5
 
 namespace XzVerif.C17
 open XzVerif.XzIo
@@ -34,5 +36,39 @@ theorem src_kept_when_requested (c : Cfg α) (hsp : SparseOk c.zero c.ops) (dstE
     obtain ⟨_, _, hk, hi, _⟩ := i.srcGone hs
     simp [Opts.keepEff, Opts.toStdout] at hk
     rcases h with h | h | h | h <;> simp_all
+
+/-- Without --force a target that existed before xz started is never unlinked, whatever fails and whenever the
+    process dies.  If moreover no other process renames it away, it keeps its name, xz creates no file of its own
+    (open() uses O_CREAT|O_EXCL and fails with EEXIST) and the source is kept. -/
+theorem never_overwrite (c : Cfg α) (hsp : SparseOk c.zero c.ops) (hf : c.o.force = false) (n : Nat) :
+    let s := run c true n
+    s.fs.preLinked = true ∧
+      (c.moveAt = none → s.fs.dstName = some inoPre ∧ s.fs.ownLinked = false ∧ s.fs.srcLinked = true) := by
+  intro s
+  have q := q4_runN hf n _ (q4_start (c := c) hf true 0 0)
+  refine ⟨q.pre, fun hm => ?_⟩
+  have := q.still hm rfl
+  refine ⟨this.1, this.2, ?_⟩
+  rcases src_or_complete_target c hsp true n with h | h
+  · exact h
+  · have h1 : s.fs.ownLinked = true := h.1
+    have h2 : s.fs.ownLinked = false := this.2
+    rw [h2] at h1; exact absurd h1 (by simp)
+
+/-- Every `unlink(target)` in every trace is directly preceded by the lstat()/stat() of io_unlink whose inode is
+    the one fstat() returned right after this run created the target (traces are newest first).  The unlink of
+    `--force` before the creation is a different call (`Call.unlinkForce`). -/
+theorem only_own_target_unlinked (c : Cfg α) (dstExists : Bool) (n : Nat) (pre post : List Event) (r : Res)
+    (h : (run c dstExists n).trace = pre ++ ⟨.unlink .dst, r⟩ :: post) :
+    ∃ follow v rest, post = ⟨.stat .dst follow, .ok v⟩ :: rest ∧ ⟨.fstat .dst, .ok v⟩ ∈ rest ∧ v ≠ 0 := by
+  have q : UnlinkGuarded (run c dstExists n).trace :=
+    (q5_runN (c := c) n _ (q5_start (c := c) dstExists 0 0)).guarded
+  have key : ∀ (tr : List Event), UnlinkGuarded tr → ∀ pre, tr = pre ++ ⟨.unlink .dst, r⟩ :: post →
+      ∃ follow v rest, post = ⟨.stat .dst follow, .ok v⟩ :: rest ∧ ⟨.fstat .dst, .ok v⟩ ∈ rest ∧ v ≠ 0 := by
+    intro tr hg pre
+    induction pre generalizing tr with
+    | nil => intro e; subst e; exact hg.1 rfl
+    | cons p ps ih => intro e; subst e; exact ih _ hg.2 rfl
+  exact key _ q pre h
 
 end XzVerif.C17
